@@ -300,6 +300,8 @@ def classify(f, ctx):
     cc = dict(case)
     cc["cond"] = cond
     exp = multi.expected(cc, world)
-    r = KF.attribute(f, lambda caching: multi.evaluate(cc, world, caching=caching)[0], exp, mentioned_not_selected=False,
+    # (the counterfactual runs repeat the history of the failing run: the same abandoned-first evaluation)
+    r = KF.attribute(f, lambda caching: multi.evaluate(cc, world, caching=caching, take_first=case.get("take_first", 0))[0], exp,
+                     mentioned_not_selected=False,
                      compare=lambda got, e: H.diff_kind(got, e, ordered=False, multiset=True), nvars=len(case["kinds"]))
     return r if r == "K05" else None
